@@ -389,7 +389,7 @@ def check_C10(tier, replay=None):
     R = Result("C10", tier)
     shapes = ["two", "chain", "star", "diamond"]
     runs = [("MC_C10_" + sh, {"Shape": '"%s"' % sh, "Small": "TRUE" if tier == "quick" else "FALSE"}) for sh in shapes]
-    std_flow(R, "MC_C10", runs, "Trace_C10", {}, ("D06", "D06b", "D07", "D38"), ["RegistryInvariant", "AllModules", "Emit"])
+    std_flow(R, "MC_C10", runs, "Trace_C10", {}, ("D06", "D06b", "D07", "D38", "D40"), ["RegistryInvariant", "AllModules", "Emit"])
     R.extra["exhaustive"] = True
     # the declaration clauses also on what is generated for the schema sets and WSDLs of MC_CR (envelope structs included)
     import crpipe
@@ -772,7 +772,7 @@ CHECKS = {"C01": check_C01, "C03": check_C03, "C04": check_C04, "C05": check_C05
 
 REPLAY = {
     "C02": ("Trace_Out", {"P": '"C02"'}, MEMBER_DEVS), "C08": ("Trace_Out", {"P": '"C08"'}, MEMBER_DEVS), "C09": ("Trace_Out", {"P": '"C09"'}, MEMBER_DEVS),
-    "C06": ("Trace_C06", {}, ("D20", "D21")), "C10": ("Trace_C10", {}, ("D06", "D06b", "D07", "D38")),
+    "C06": ("Trace_C06", {}, ("D20", "D21")), "C10": ("Trace_C10", {}, ("D06", "D06b", "D07", "D38", "D40")),
     "C11": ("Trace_C11", None, ("D03", "D04", "D28", "D28b")), "C12": ("Trace_C12", {}, ("D05",)),
     "C13": ("Trace_C13", {"Features": FEATURES}, ("D24a", "D24b", "D24c", "D24d", "D24e", "D03")),
     "C14": ("Trace_C14", {}, ("D25",)), "C15": ("Trace_C15", {}, ("D26",)), "C17": ("Trace_C17", {}, ("D01", "D02")),
